@@ -375,27 +375,27 @@ Qed.
 Lemma wb_sem_stmts : forall A n i, wb A (sem_stmts i n) = true.
 Proof. induction n; intros i; simpl; [reflexivity | apply IHn]. Qed.
 
-Lemma wb_decimal_spec : forall A w s, wb A (decimal_spec w s) = true.
+Lemma wb_decimal_impl : forall A w s, wb A (decimal_impl w s) = true.
 Proof. reflexivity. Qed.
 
-Lemma wb_decimal_impl : forall A w s, wb A (decimal_impl w s) = true.
+Lemma wb_decimal_before_fix : forall A w s, wb A (decimal_before_fix w s) = true.
 Proof. intros A [|] [|]; reflexivity. Qed.
 
-Lemma conn_spec_bracketed : forall fb dec body,
+Lemma conn_impl_bracketed : forall fb dec body,
   wb [RConn; RDbFile; RDir] dec = true -> wb [RConn; RDbFile; RDir] body = true ->
-  bracketed (conn_spec fb dec body) = true.
+  bracketed (conn_impl fb dec body) = true.
 Proof.
-  intros fb dec body Hd Hb. unfold bracketed, conn_spec. simpl. rewrite Hd, Hb. destruct fb; reflexivity.
+  intros fb dec body Hd Hb. unfold bracketed, conn_impl. simpl. rewrite Hd, Hb. destruct fb; reflexivity.
 Qed.
 
-Theorem run_spec_bracketed : forall n fb envW envS ss nfinal save,
-  bracketed (run_spec n fb envW envS (exec_queries ss nfinal save)) = true.
+Theorem run_impl_bracketed : forall n fb envW envS ss nfinal save,
+  bracketed (run_impl n fb envW envS (exec_queries ss nfinal save)) = true.
 Proof.
-  intros. unfold bracketed, run_spec.
-  change (wb [] (semantic_spec n) && wb [] (conn_spec fb (decimal_spec envW envS) (exec_queries ss nfinal save)) = true).
+  intros. unfold bracketed, run_impl.
+  change (wb [] (semantic_impl n) && wb [] (conn_impl fb (decimal_impl envW envS) (exec_queries ss nfinal save)) = true).
   apply andb_true_iff. split.
   - simpl. apply wb_sem_stmts.
-  - apply conn_spec_bracketed; [apply wb_decimal_spec | apply wb_exec_queries].
+  - apply conn_impl_bracketed; [apply wb_decimal_impl | apply wb_exec_queries].
 Qed.
 
 (* ---- the faithful connection skeleton: exact leak per fault position ---------------------------------------- *)
@@ -438,7 +438,7 @@ Proof.
     destruct (exec k p2 s1) as [[] s2]; simpl in *; split; congruence.
 Qed.
 
-Lemma quiet_decimal_impl : forall w s, quiet (decimal_impl w s) = true.
+Lemma quiet_decimal_before_fix : forall w s, quiet (decimal_before_fix w s) = true.
 Proof. intros [|] [|]; reflexivity. Qed.
 
 (* the try/finally part of configured_connection releases everything, whatever happens in the body *)
@@ -462,17 +462,17 @@ Proof.
 Qed.
 
 (* outcome and leak of the faithful skeleton when all configuration checks pass *)
-Lemma dec_ok_exec : forall envW envS k s, valid_cfg_impl envW envS (glb s) = true ->
-  fst (exec k (decimal_impl envW envS) s) = Ok.
+Lemma dec_ok_exec : forall envW envS k s, valid_cfg_before_fix envW envS (glb s) = true ->
+  fst (exec k (decimal_before_fix envW envS) s) = Ok.
 Proof.
-  intros envW envS k s H. unfold valid_cfg_impl in H. apply andb_true_iff in H. destruct H as [H1 H2].
+  intros envW envS k s H. unfold valid_cfg_before_fix in H. apply andb_true_iff in H. destruct H as [H1 H2].
   destruct envW as [w|]; destruct envS as [sc|]; simpl in *; unfold upd; simpl; rewrite ?H1; simpl; rewrite ?H2; reflexivity.
 Qed.
 
-Lemma dec_bad_exec : forall envW envS k s, valid_cfg_impl envW envS (glb s) = false ->
-  fst (exec k (decimal_impl envW envS) s) = Fail.
+Lemma dec_bad_exec : forall envW envS k s, valid_cfg_before_fix envW envS (glb s) = false ->
+  fst (exec k (decimal_before_fix envW envS) s) = Fail.
 Proof.
-  intros envW envS k s H. unfold valid_cfg_impl in H. apply andb_false_iff in H.
+  intros envW envS k s H. unfold valid_cfg_before_fix in H. apply andb_false_iff in H.
   destruct envW as [w|]; destruct envS as [sc|]; simpl in *; unfold upd; simpl;
     destruct H as [H|H]; rewrite ?H; simpl; try reflexivity;
     match goal with |- context [if ?c then _ else _] => destruct c end; simpl; rewrite ?H; reflexivity.
@@ -492,11 +492,11 @@ Proof.
   destruct k as [[|[|[|[|[|k]]]]]|]; destruct fb; simpl; repeat split; reflexivity.
 Qed.
 
-Theorem conn_impl_leaks : forall fb envW envS body k s,
-  live s = [] -> cnt s = 0 -> valid_cfg_impl envW envS (glb s) = true -> wb [RConn; RDbFile; RDir] body = true ->
-  live (snd (exec (Some k) (conn_impl fb (decimal_impl envW envS) body) s)) = predicted_leak fb k.
+Theorem conn_before_fix_leaks : forall fb envW envS body k s,
+  live s = [] -> cnt s = 0 -> valid_cfg_before_fix envW envS (glb s) = true -> wb [RConn; RDbFile; RDir] body = true ->
+  live (snd (exec (Some k) (conn_before_fix fb (decimal_before_fix envW envS) body) s)) = predicted_leak fb k.
 Proof.
-  intros fb envW envS body k s Hl Hc Hv Hb. unfold conn_impl.
+  intros fb envW envS body k s Hl Hc Hv Hb. unfold conn_before_fix.
   pose proof (conn_pre_exec fb (Some k) s Hl Hc) as P.
   assert (forall p, exec (Some k) (Seq (conn_pre fb) p) s =
                     match exec (Some k) (conn_pre fb) s with (Ok, s1) => exec (Some k) p s1 | (Fail, s1) => (Fail, s1) end) as U
@@ -507,12 +507,12 @@ Proof.
   destruct P as [P1 [P2 [P3 P4]]]. destruct (exec _ (conn_pre fb) s) as [[] s1]; simpl in P1, P2, P3, P4; try discriminate.
   rewrite <- P4 in Hv.
   pose proof (dec_ok_exec envW envS (Some (S (S (S (S (S k)))))) s1 Hv) as D.
-  destruct (quiet_exec (decimal_impl envW envS) (Some (S (S (S (S (S k)))))) s1 (quiet_decimal_impl _ _)) as [Q1 Q2].
-  change (exec (Some (S (S (S (S (S k)))))) (Seq (decimal_impl envW envS) (Seq (Step LSetTemp []) (TryFinally body conn_finally))) s1)
-    with (match exec (Some (S (S (S (S (S k)))))) (decimal_impl envW envS) s1 with
+  destruct (quiet_exec (decimal_before_fix envW envS) (Some (S (S (S (S (S k)))))) s1 (quiet_decimal_before_fix _ _)) as [Q1 Q2].
+  change (exec (Some (S (S (S (S (S k)))))) (Seq (decimal_before_fix envW envS) (Seq (Step LSetTemp []) (TryFinally body conn_finally))) s1)
+    with (match exec (Some (S (S (S (S (S k)))))) (decimal_before_fix envW envS) s1 with
           | (Ok, s2) => exec (Some (S (S (S (S (S k)))))) (Seq (Step LSetTemp []) (TryFinally body conn_finally)) s2
           | (Fail, s2) => (Fail, s2) end).
-  destruct (exec _ (decimal_impl envW envS) s1) as [[] s2]; simpl in D, Q1, Q2; try discriminate.
+  destruct (exec _ (decimal_before_fix envW envS) s1) as [[] s2]; simpl in D, Q1, Q2; try discriminate.
   change (exec (Some (S (S (S (S (S k)))))) (Seq (Step LSetTemp []) (TryFinally body conn_finally)) s2)
     with (match (if hits (Some (S (S (S (S (S k)))))) (cnt s2) then (Fail, add_obs (observe s2 []) (tick LSetTemp s2)) else (Ok, tick LSetTemp s2)) with
           | (Ok, s3) => exec (Some (S (S (S (S (S k)))))) (TryFinally body conn_finally) s3
@@ -523,13 +523,13 @@ Proof.
 Qed.
 
 (* a configuration error (a real one, no injected fault needed) leaks everything acquired before the try *)
-Theorem conn_impl_config_error_leaks : forall fb envW envS body k s,
-  live s = [] -> cnt s = 0 -> valid_cfg_impl envW envS (glb s) = false ->
+Theorem conn_before_fix_config_error_leaks : forall fb envW envS body k s,
+  live s = [] -> cnt s = 0 -> valid_cfg_before_fix envW envS (glb s) = false ->
   (match k with Some j => 5 <= j | None => True end) ->
-  fst (exec k (conn_impl fb (decimal_impl envW envS) body) s) = Fail /\
-  live (snd (exec k (conn_impl fb (decimal_impl envW envS) body) s)) = leakset fb.
+  fst (exec k (conn_before_fix fb (decimal_before_fix envW envS) body) s) = Fail /\
+  live (snd (exec k (conn_before_fix fb (decimal_before_fix envW envS) body) s)) = leakset fb.
 Proof.
-  intros fb envW envS body k s Hl Hc Hv Hk. unfold conn_impl.
+  intros fb envW envS body k s Hl Hc Hv Hk. unfold conn_before_fix.
   pose proof (conn_pre_exec fb k s Hl Hc) as P.
   assert (forall p, exec k (Seq (conn_pre fb) p) s =
                     match exec k (conn_pre fb) s with (Ok, s1) => exec k p s1 | (Fail, s1) => (Fail, s1) end) as U
@@ -540,12 +540,12 @@ Proof.
   { destruct k as [[|[|[|[|[|j]]]]]|]; try lia; exact P. }
   clear P. destruct P' as [P1 [P2 [P3 P4]]]. destruct (exec k (conn_pre fb) s) as [[] s1]; simpl in P1, P2, P3, P4; try discriminate.
   rewrite <- P4 in Hv. pose proof (dec_bad_exec envW envS k s1 Hv) as D.
-  destruct (quiet_exec (decimal_impl envW envS) k s1 (quiet_decimal_impl _ _)) as [Q1 Q2].
-  change (exec k (Seq (decimal_impl envW envS) (Seq (Step LSetTemp []) (TryFinally body conn_finally))) s1)
-    with (match exec k (decimal_impl envW envS) s1 with
+  destruct (quiet_exec (decimal_before_fix envW envS) k s1 (quiet_decimal_before_fix _ _)) as [Q1 Q2].
+  change (exec k (Seq (decimal_before_fix envW envS) (Seq (Step LSetTemp []) (TryFinally body conn_finally))) s1)
+    with (match exec k (decimal_before_fix envW envS) s1 with
           | (Ok, s2) => exec k (Seq (Step LSetTemp []) (TryFinally body conn_finally)) s2
           | (Fail, s2) => (Fail, s2) end).
-  destruct (exec k (decimal_impl envW envS) s1) as [[] s2]; simpl in D, Q1; try discriminate.
+  destruct (exec k (decimal_before_fix envW envS) s1) as [[] s2]; simpl in D, Q1; try discriminate.
   simpl. split; [reflexivity | congruence].
 Qed.
 
@@ -578,44 +578,44 @@ Proof.
   destruct (IHn (S i)) as [A [B [C D]]]. repeat split; [rewrite A; reflexivity | exact B | exact C | exact D].
 Qed.
 
-Lemma semantic_impl_facts : forall n,
-  nsteps (semantic_impl n) = n /\ check_free (semantic_impl n) = true /\ res_free (semantic_impl n) = true /\
-  write_free [GWidth; GScale] (semantic_impl n) = true.
+Lemma semantic_body_facts : forall n,
+  nsteps (semantic_body n) = n /\ check_free (semantic_body n) = true /\ res_free (semantic_body n) = true /\
+  write_free [GWidth; GScale] (semantic_body n) = true.
 Proof. intros n. destruct (sem_stmts_facts n 0) as [A [B [C D]]]. simpl. repeat split; assumption. Qed.
 
 Lemma valid_cfg_ext : forall envW envS G G', G' GWidth = G GWidth -> G' GScale = G GScale ->
-  valid_cfg_impl envW envS G' = valid_cfg_impl envW envS G.
-Proof. intros envW envS G G' H1 H2. unfold valid_cfg_impl. rewrite H1, H2. reflexivity. Qed.
+  valid_cfg_before_fix envW envS G' = valid_cfg_before_fix envW envS G.
+Proof. intros envW envS G G' H1 H2. unfold valid_cfg_before_fix. rewrite H1, H2. reflexivity. Qed.
 
 (* the faithful run skeleton, for every number of statements, every schedule, every fault position:
    a fault during semantic analysis (k < n) leaks nothing; afterwards the leak is that of the connection skeleton *)
-Theorem run_impl_leaks : forall n fb envW envS body k G,
-  valid_cfg_impl envW envS G = true -> wb [RConn; RDbFile; RDir] body = true ->
-  live (snd (exec (Some k) (run_impl n fb envW envS body) (init G))) =
+Theorem run_before_fix_leaks : forall n fb envW envS body k G,
+  valid_cfg_before_fix envW envS G = true -> wb [RConn; RDbFile; RDir] body = true ->
+  live (snd (exec (Some k) (run_before_fix n fb envW envS body) (init G))) =
     if k <? n then [] else predicted_leak fb (k - n).
 Proof.
-  intros n fb envW envS body k G Hv Hb. unfold run_impl.
-  destruct (semantic_impl_facts n) as [Fn [Fc [Fr Fw]]].
-  change (exec (Some k) (Seq (semantic_impl n) (conn_impl fb (decimal_impl envW envS) body)) (init G))
-    with (match exec (Some k) (semantic_impl n) (init G) with
-          | (Ok, s1) => exec (Some k) (conn_impl fb (decimal_impl envW envS) body) s1
+  intros n fb envW envS body k G Hv Hb. unfold run_before_fix.
+  destruct (semantic_body_facts n) as [Fn [Fc [Fr Fw]]].
+  change (exec (Some k) (Seq (semantic_body n) (conn_before_fix fb (decimal_before_fix envW envS) body)) (init G))
+    with (match exec (Some k) (semantic_body n) (init G) with
+          | (Ok, s1) => exec (Some k) (conn_before_fix fb (decimal_before_fix envW envS) body) s1
           | (Fail, s1) => (Fail, s1) end).
-  pose proof (res_free_live (semantic_impl n) (Some k) (init G) Fr) as L.
+  pose proof (res_free_live (semantic_body n) (Some k) (init G) Fr) as L.
   destruct (k <? n) eqn:E.
   - apply Nat.ltb_lt in E.
-    pose proof (fault_raises (semantic_impl n) k (init G)) as R. rewrite Fn in R. change (cnt (init G)) with 0 in R.
+    pose proof (fault_raises (semantic_body n) k (init G)) as R. rewrite Fn in R. change (cnt (init G)) with 0 in R.
     specialize (R (conj (Nat.le_0_l k) E)).
-    destruct (exec (Some k) (semantic_impl n) (init G)) as [[] s1]; cbn [fst snd] in *; [discriminate | exact L].
+    destruct (exec (Some k) (semantic_body n) (init G)) as [[] s1]; cbn [fst snd] in *; [discriminate | exact L].
   - apply Nat.ltb_ge in E.
-    pose proof (only_faults_fail (semantic_impl n) (Some k) (init G) Fc) as O. rewrite Fn in O. change (cnt (init G)) with 0 in O.
-    pose proof (exec_ok_counts (semantic_impl n) (Some k) (init G)) as C. rewrite Fn in C. change (cnt (init G)) with 0 in C.
-    pose proof (write_free_keeps (semantic_impl n) [GWidth; GScale] (Some k) (init G) Fw) as K.
-    destruct (exec (Some k) (semantic_impl n) (init G)) as [[] s1]; cbn [fst snd] in *.
+    pose proof (only_faults_fail (semantic_body n) (Some k) (init G) Fc) as O. rewrite Fn in O. change (cnt (init G)) with 0 in O.
+    pose proof (exec_ok_counts (semantic_body n) (Some k) (init G)) as C. rewrite Fn in C. change (cnt (init G)) with 0 in C.
+    pose proof (write_free_keeps (semantic_body n) [GWidth; GScale] (Some k) (init G) Fw) as K.
+    destruct (exec (Some k) (semantic_body n) (init G)) as [[] s1]; cbn [fst snd] in *.
     + destruct (C eq_refl) as [C1 _]. simpl in C1.
       set (s0 := mkSt (live s1) (glb s1) (obs s1) 0 (trace s1)).
       assert (s1 = shift n s0) as Es by (destruct s1; simpl in *; subst; reflexivity).
       replace (Some k) with (Some ((k - n) + n)) by (f_equal; lia).
-      rewrite Es, exec_shift. cbn [snd]. unfold shift at 1. cbn [live]. apply conn_impl_leaks; try reflexivity; try exact Hb.
+      rewrite Es, exec_shift. cbn [snd]. unfold shift at 1. cbn [live]. apply conn_before_fix_leaks; try reflexivity; try exact Hb.
       * exact L.
       * simpl. rewrite <- Hv. apply valid_cfg_ext; apply K; simpl; auto.
     + destruct (O eq_refl) as [j [Hj Hr]]. inversion Hj. lia.
@@ -682,10 +682,10 @@ Qed.
 
 (* the spec skeleton of run(), for every number of statements / schedule / environment setting, reads only what it
    wrote itself or the restored global dataset_output *)
-Theorem run_spec_self_init : forall n fb envW envS ss nfinal save,
-  si (map fst restored) (run_spec n fb envW envS (exec_queries ss nfinal save)) = true.
+Theorem run_impl_self_init : forall n fb envW envS ss nfinal save,
+  si (map fst restored) (run_impl n fb envW envS (exec_queries ss nfinal save)) = true.
 Proof.
-  intros. unfold run_spec, conn_spec, semantic_spec, semantic_impl, decimal_spec.
+  intros. unfold run_impl, conn_impl, semantic_impl, semantic_body, decimal_impl.
   pose proof (fun W K => si_exec_queries W ss nfinal save K) as HB.
   generalize dependent (exec_queries ss nfinal save). intros body HB.
   destruct fb; simpl; rewrite si_sem_stmts by (simpl; auto); rewrite HB by (repeat split; simpl; auto); reflexivity.
@@ -711,13 +711,13 @@ Proof.
 Qed.
 
 (* ... and leaves dataset_output at its baseline whatever happens (any fault, any failing check) *)
-Theorem run_spec_restores : forall n fb envW envS ss nfinal save k s,
-  inv restored s -> inv restored (snd (exec k (run_spec n fb envW envS (exec_queries ss nfinal save)) s)).
+Theorem run_impl_restores : forall n fb envW envS ss nfinal save k s,
+  inv restored s -> inv restored (snd (exec k (run_impl n fb envW envS (exec_queries ss nfinal save)) s)).
 Proof.
-  intros. unfold run_spec. apply (seq_preserves (inv restored)); [| |assumption].
+  intros. unfold run_impl. apply (seq_preserves (inv restored)); [| |assumption].
   - intros s0 _. apply try_reset_preserves. simpl. constructor; [intros []|constructor].
   - intros s0 I0. apply write_free_preserves; [|exact I0].
-    unfold conn_spec, decimal_spec. pose proof (write_free_exec_queries (map fst restored) ss nfinal save) as HB.
+    unfold conn_impl, decimal_impl. pose proof (write_free_exec_queries (map fst restored) ss nfinal save) as HB.
     generalize dependent (exec_queries ss nfinal save). intros body HB.
     destruct fb; simpl in *; rewrite HB; reflexivity.
 Qed.
@@ -726,11 +726,11 @@ Lemma validate_restores : forall k s, inv restored s -> inv restored (snd (exec 
 Proof. intros k s I. apply write_free_preserves; [reflexivity | exact I]. Qed.
 
 (* ---- statements used verbatim by Props/C16.v ------------------------------------------------------------------ *)
-Corollary run_impl_leaks_positions : forall n fb envW envS body k G,
-  valid_cfg_impl envW envS G = true -> wb [RConn; RDbFile; RDir] body = true ->
-  (live (snd (exec (Some k) (run_impl n fb envW envS body) (init G))) <> [] <-> n + 1 <= k <= n + 5).
+Corollary run_before_fix_leaks_positions : forall n fb envW envS body k G,
+  valid_cfg_before_fix envW envS G = true -> wb [RConn; RDbFile; RDir] body = true ->
+  (live (snd (exec (Some k) (run_before_fix n fb envW envS body) (init G))) <> [] <-> n + 1 <= k <= n + 5).
 Proof.
-  intros n fb envW envS body k G Hv Hb. rewrite (run_impl_leaks n fb envW envS body k G Hv Hb).
+  intros n fb envW envS body k G Hv Hb. rewrite (run_before_fix_leaks n fb envW envS body k G Hv Hb).
   destruct (k <? n) eqn:E.
   - apply Nat.ltb_lt in E. split; [intros H; exfalso; apply H; reflexivity | lia].
   - apply Nat.ltb_ge in E. remember (k - n) as j eqn:Ej.
@@ -738,38 +738,38 @@ Proof.
       try (destruct fb; discriminate).
 Qed.
 
-Theorem run_impl_bracketed_refuted : forall n fb envW envS ss nfinal save G,
-  valid_cfg_impl envW envS G = true ->
-  live (snd (exec (Some (n + 1)) (run_impl n fb envW envS (exec_queries ss nfinal save)) (init G))) = [RDir] /\
-  live (snd (exec (Some (n + 4)) (run_impl n fb envW envS (exec_queries ss nfinal save)) (init G))) = leakset fb.
+Theorem run_before_fix_bracketed_refuted : forall n fb envW envS ss nfinal save G,
+  valid_cfg_before_fix envW envS G = true ->
+  live (snd (exec (Some (n + 1)) (run_before_fix n fb envW envS (exec_queries ss nfinal save)) (init G))) = [RDir] /\
+  live (snd (exec (Some (n + 4)) (run_before_fix n fb envW envS (exec_queries ss nfinal save)) (init G))) = leakset fb.
 Proof.
-  intros. split; rewrite run_impl_leaks by (try assumption; apply wb_exec_queries).
+  intros. split; rewrite run_before_fix_leaks by (try assumption; apply wb_exec_queries).
   - replace (n + 1 <? n) with false by (symmetry; apply Nat.ltb_ge; lia). replace (n + 1 - n) with 1 by lia. reflexivity.
   - replace (n + 4 <? n) with false by (symmetry; apply Nat.ltb_ge; lia). replace (n + 4 - n) with 4 by lia. reflexivity.
 Qed.
 
 Theorem config_error_leaks : forall fb envW envS body s,
-  live s = [] -> cnt s = 0 -> valid_cfg_impl envW envS (glb s) = false ->
-  fst (exec None (conn_impl fb (decimal_impl envW envS) body) s) = Fail /\
-  live (snd (exec None (conn_impl fb (decimal_impl envW envS) body) s)) = leakset fb.
-Proof. intros. apply conn_impl_config_error_leaks; auto. Qed.
+  live s = [] -> cnt s = 0 -> valid_cfg_before_fix envW envS (glb s) = false ->
+  fst (exec None (conn_before_fix fb (decimal_before_fix envW envS) body) s) = Fail /\
+  live (snd (exec None (conn_before_fix fb (decimal_before_fix envW envS) body) s)) = leakset fb.
+Proof. intros. apply conn_before_fix_config_error_leaks; auto. Qed.
 
-Theorem run_spec_never_leaks : forall n fb envW envS ss nfinal save k G,
-  live (snd (exec k (run_spec n fb envW envS (exec_queries ss nfinal save)) (init G))) = [].
-Proof. intros. apply bracketed_safe; [apply run_spec_bracketed | reflexivity]. Qed.
+Theorem run_impl_never_leaks : forall n fb envW envS ss nfinal save k G,
+  live (snd (exec k (run_impl n fb envW envS (exec_queries ss nfinal save)) (init G))) = [].
+Proof. intros. apply bracketed_safe; [apply run_impl_bracketed | reflexivity]. Qed.
 
-Lemma api_call_spec_si : forall p, api_call_spec p -> si (map fst restored) p = true.
-Proof. intros p [n fb envW envS ss nfinal save|]; [apply run_spec_self_init | reflexivity]. Qed.
+Lemma api_call_si : forall p, api_call p -> si (map fst restored) p = true.
+Proof. intros p [n fb envW envS ss nfinal save|]; [apply run_impl_self_init | reflexivity]. Qed.
 
-Lemma api_call_spec_inv : forall p, api_call_spec p -> forall k s, inv restored s -> inv restored (snd (exec k p s)).
-Proof. intros p [n fb envW envS ss nfinal save|] k s I; [apply run_spec_restores; exact I | apply validate_restores; exact I]. Qed.
+Lemma api_call_inv : forall p, api_call p -> forall k s, inv restored s -> inv restored (snd (exec k p s)).
+Proof. intros p [n fb envW envS ss nfinal save|] k s I; [apply run_impl_restores; exact I | apply validate_restores; exact I]. Qed.
 
-Theorem history_independence_spec : forall runs p k G,
-  (forall q kq, In (q, kq) runs -> api_call_spec q) -> api_call_spec p -> G GDsOut = 0%Z ->
+Theorem history_independence_impl : forall runs p k G,
+  (forall q kq, In (q, kq) runs -> api_call q) -> api_call p -> G GDsOut = 0%Z ->
   behaviour k p (run_seq runs (init G)) = behaviour k p (init G).
 Proof.
   intros runs p k G Hr Hp HG. apply (history_independence restored).
-  - intros q kq Hq. apply api_call_spec_inv. exact (Hr q kq Hq).
+  - intros q kq Hq. apply api_call_inv. exact (Hr q kq Hq).
   - intros g v [E|[]]. inversion E; subst. exact HG.
-  - apply api_call_spec_si. exact Hp.
+  - apply api_call_si. exact Hp.
 Qed.
